@@ -178,8 +178,9 @@ def raw_spec_escape_quirk(ptoks):
 
 def debug_field_quirk(ptoks):
     """CPython 3.12.1 computes the text of a `=` debug field wrongly when the expression contains `!=` (the text is cut at the `!`)
-    a comment (the comment is dropped) or a nested f-string (its escapes are decoded / its text is truncated): such fields are outside what this reference can judge"""
-    toks = [t for t in ptoks if t.type != pytok.NL]
+    a string that holds a `#` (cut there as if it were a comment) or a nested f-string (its escapes are decoded / its text is truncated): such
+    fields are outside what this reference can judge. (Leaving real comments out of the text is deliberate - CPython's own tests assert it.)"""
+    toks = [t for t in ptoks if t.type not in (pytok.NL, pytok.COMMENT)]
     for i, t in enumerate(toks):
         if t.type == pytok.OP and t.string == "=" and i + 1 < len(toks) and toks[i + 1].type == pytok.OP and toks[i + 1].string in ("!", ":", "}"):
             depth = 0
@@ -192,7 +193,7 @@ def debug_field_quirk(ptoks):
                     if depth == 0:
                         break
                     depth -= 1
-                if u.type in (pytok.COMMENT, pytok.FSTRING_START, pytok.FSTRING_END) or (u.type == pytok.OP and u.string == "!="):
+                if u.type in (pytok.FSTRING_START, pytok.FSTRING_END) or (u.type == pytok.OP and u.string == "!=") or (u.type == pytok.STRING and "#" in u.string):
                     return True
                 j -= 1
     return False
@@ -381,6 +382,10 @@ FIXED = ["x = f'a'\n", "x = f''\n", "x = f'{a}'\n", "x = f'{a}{b}'\n", "x = f'a{
          "x = f'{a:%Y-%m-%d}'\n", "x = f'{a!s:^{w}}'\n", "x = f'{a:{b:{c}}}'\n", "x = f'{{{a}}}'\n", "x = f'{a}}}'\n", "x = f'{{{{'\n", "x = f'{\"}\"}'\n", "x = f'{a}' \\\n  f'{b}'\n", "x = f'{d[\"k\"]}'\n",
          "x = f'{a,}'\n", "x = f'{*a,}'\n", "x = f\'\'\'{a=\n\n}\'\'\'\n", "x = f\'\'\'{a =\n  \n !r:>3}\'\'\'\n", "x = f\'\'\'z{a + 1 =\n\n\n:>10}b\'\'\'\n", "x = f'{lambda: 0}'\n" if False else "x = f'{(lambda: 0)}'\n", "x = f'{a:\\n}'\n" if False else "x = f'{a:x}'\n", "x = F'{a}'\n", "x = fR'{a}\\n'\n", "x = f'é{a}ü'\n", "x = f'{é}'\n",
          "x = f'{a}' ''\n", "x = '' f'{a}'\n", "x = f'' ''\n", "x = '' f'{a}' '' 'b' ''\n", "x = f'''{a:'>5}'''\n", 'x = f"""{a:"">5}"""\n', "x = f'''{a:>5}' '''\n"]
+# comments inside a `=` debug field (CPython leaves them out of the text and keeps their line ends) and escaped quotes in a format spec
+FIXED += ["x = f\"{1+2 = # my comment\n  }\"\n", "x = f'''{a # c\n=}'''\n", "x = f'{a=# c\n}'\n", "x = f'''{a = # c\n # d\n\n  !r:>3}'''\n", "x = f'''{a + # c\n b = }'''\n", "x = f'''{(a, # c\n b) = # d\n}'''\n",
+          "x = f'''{a = #\n}''' f'{b}'\n", "x = f\"\"\"{\n# c\na = # d\n\n}\"\"\"\n", "x = f'''{a # 'q'\n=}'''\n", "x = f'''{a # \"\"\"\n= }'''\n",
+          "f'{a:\\'\n}'\n", "x = f'''{a:\\'''\n>3}'''\n", "x = f\"{a!r:{w}\\\"\n}\"\n", "x = f'{a:\\'}'\n", "x = f'{a:\\'>3}' 'b'\n", "x = rf'{a:\\'\n}'\n" if False else "x = f'{a:\\\\}'\n", "x = f'{a:{w}\\'x}'\n", "x = f\"{a:\\\"\\\"}\"\n"]
 
 
 def run_shard(shard):
